@@ -291,6 +291,12 @@ class PinWorld:
                         # just ejected coming back (return ambiguity)
                         for o in self.balls:
                             if o.kind == "transit" and o.src == info.name:
+                                if not o.ambiguous:
+                                    # ... and when that ball then arrives after all, it is booked as a stray ball from the
+                                    # playfield: same class as the re-entry ambiguity
+                                    self.ambiguous_reentries += 1
+                                    self.ambiguous_devs.add(info.name)
+                                    self.ctx.probe("ambiguous_reentry")
                                 o.ambiguous = True
                         break
 
